@@ -441,3 +441,9 @@ class Spec:
         self.meth = aug._method
         self.opti = aug._method.opti
         return self.meth
+
+
+def own_horizon_kw(m, Tk, t0k):
+    return dict(method=m, N=2, M=2, degree=2, T=Tk, t0=t0k, params={"": [1]}, ode=E("f", None, ("x", "u", "t", "p")),
+                constraints=[Con(E("ct", 1, ("x", "T", "t0", "t")), "le", 1.0), Con(E("cb", 1, (("at", "tf", "x"), "T", "t0")), "le", 2.0)],
+                objective=[("at_tf", E("Mf", 1, ("x", "T", "t"))), ("value", E("VT", 1, ("T", "t0", "p")))])
